@@ -464,4 +464,357 @@ theorem passOn_ok (w : World) (self src : Trx) (s : Trxd.TxMsg) (m : Trxd.RxMsg)
               subst this
               exact ⟨a7, a8, a9, a10⟩ }
 
+/-! ### the suppression decision -/
+
+/-- one simulated burst loss: `burst_drop_amount -= 1` of transceiver `k` -/
+def decDrop (w : World) (k : Nat) : World :=
+  setTrx w k (fun t => { t with dropAmount := t.dropAmount - 1 })
+
+theorem dropDecision_muted (w : World) (k : Nat) (self : Trx) (m : Trxd.RxMsg)
+    (h : self.rfMuted = true) : dropDecision w k self m = .ok (true, w) := by
+  simp only [dropDecision, h, if_true]
+
+theorem dropDecision_nope (w : World) (k : Nat) (self : Trx) (m : Trxd.RxMsg)
+    (h : m.nopeInd = true) : dropDecision w k self m = .ok (true, w) := by
+  simp only [dropDecision, h, not_true, if_false]
+  split <;> rfl
+
+theorem fmod_zero_iff_dvd (fn p : Int) (hp : 1 ≤ p) : Int.fmod fn p = 0 ↔ p ∣ fn := by
+  rw [Int.fmod_eq_emod_of_nonneg fn (by omega : 0 ≤ p), Int.dvd_iff_emod_eq_zero]
+
+theorem dropDecision_live (w : World) (k : Nat) (self : Trx) (m : Trxd.RxMsg) (fn : Int)
+    (hm : self.rfMuted = false) (hn : m.nopeInd = false) (hfn : m.fn = some fn)
+    (hwf : Spec.DropWF self) :
+    dropDecision w k self m =
+      if Spec.dropDue self fn then .ok (true, decDrop w k) else .ok (false, w) := by
+  obtain ⟨ha, hp⟩ := hwf
+  have hp0 : self.dropPeriod ≠ 0 := by omega
+  simp only [dropDecision, hm, hn, hfn, hp0, Spec.dropDue, Bool.false_eq_true, if_false, not_false_eq_true,
+    if_true, Bool.and_eq_true, decide_eq_true_eq, fmod_zero_iff_dvd fn _ hp]
+  by_cases h0 : self.dropAmount = 0
+  · have : ¬ (0 < self.dropAmount) := by omega
+    simp only [h0, if_true]
+    simp
+  · have : 0 < self.dropAmount := by omega
+    simp only [h0, if_false, this, true_and]
+    rfl
+
+/-! ### `handleDataMsg`, case by case -/
+
+/-- a suppressed burst: the NOPE branch; the drop counter goes down iff it was a simulated loss -/
+theorem handleDataMsg_muted (w : World) (k j : Nat) (s : Trxd.TxMsg) (m : Trxd.RxMsg)
+    (self src : Trx) (hk : w.trxs[k]? = some self) (hj : w.trxs[j]? = some src)
+    (h : self.rfMuted = true ∨ m.nopeInd = true) :
+    handleDataMsg w k j s m =
+      match suppressOut self m with
+      | .ok ds => .ok (w, ds)
+      | .error e => .error e := by
+  rw [handleDataMsg_eq, hk, hj]
+  have : dropDecision w k self m = .ok (true, w) := by
+    by_cases hm : self.rfMuted = true
+    · exact dropDecision_muted w k self m hm
+    · exact dropDecision_nope w k self m (h.resolve_left hm)
+  simp only [this, if_true]
+
+theorem handleDataMsg_live (w : World) (k j : Nat) (s : Trxd.TxMsg) (m : Trxd.RxMsg)
+    (self src : Trx) (fn : Int) (hk : w.trxs[k]? = some self) (hj : w.trxs[j]? = some src)
+    (hm : self.rfMuted = false) (hn : m.nopeInd = false) (hfn : m.fn = some fn)
+    (hwf : Spec.DropWF self) :
+    handleDataMsg w k j s m =
+      if Spec.dropDue self fn then
+        match suppressOut self m with
+        | .ok ds => .ok (decDrop w k, ds)
+        | .error e => .error e
+      else passOn w self src s m := by
+  rw [handleDataMsg_eq, hk, hj]
+  dsimp only
+  rw [dropDecision_live w k self m fn hm hn hfn hwf]
+  by_cases hd : Spec.dropDue self fn = true
+  · simp only [hd, if_true]
+  · simp only [hd]
+    rfl
+
+/-- `suppressOut`: at most one datagram, to the own DATA peer, and it is a NOPE.ind -/
+theorem suppressOut_ok (self : Trx) (m : Trxd.RxMsg) (ds : List Dgram)
+    (h : suppressOut self m = .ok ds) :
+    (m.ver < 1 ∧ ds = []) ∨
+    (1 ≤ m.ver ∧ ((∃ b, (nopeMsg m).genMsg false = .ok b ∧ ds = [dataDgram self b]) ∨
+                  ((nopeMsg m).genMsg false = .error .valueError ∧ ds = []))) := by
+  unfold suppressOut at h
+  split at h
+  · rename_i hv
+    injection h with h
+    exact .inl ⟨hv, h.symm⟩
+  · rename_i hv
+    exact .inr ⟨by omega, sendMsg_ok _ _ _ _ h⟩
+
+/-- shape of the output of one `handleDataMsg` call: nothing, or one datagram to the own DATA peer -/
+def OneToPeer (self : Trx) (ds : List Dgram) : Prop := ds = [] ∨ ∃ b, ds = [dataDgram self b]
+
+theorem suppressOut_shape (self : Trx) (m : Trxd.RxMsg) (ds : List Dgram)
+    (h : suppressOut self m = .ok ds) : OneToPeer self ds := by
+  rcases suppressOut_ok self m ds h with ⟨_, h⟩ | ⟨_, ⟨b, _, h⟩ | ⟨_, h⟩⟩
+  · exact .inl h
+  · exact .inr ⟨b, h⟩
+  · exact .inl h
+
+theorem passOn_shape (w : World) (self src : Trx) (s : Trxd.TxMsg) (m : Trxd.RxMsg) (w' : World)
+    (ds : List Dgram) (h : passOn w self src s m = .ok (w', ds)) : OneToPeer self ds := by
+  obtain ⟨cm, h1, _, _⟩ := passOn_ok _ _ _ _ _ _ _ h
+  rcases sendMsg_ok _ _ _ _ h1 with ⟨b, _, h⟩ | ⟨_, h⟩
+  · exact .inr ⟨b, h⟩
+  · exact .inl h
+
+theorem dropDecision_ok (w : World) (k : Nat) (self : Trx) (m : Trxd.RxMsg) (nope : Bool) (w1 : World)
+    (hd : dropDecision w k self m = .ok (nope, w1)) :
+    (nope = false → w1 = w) ∧ (w1 = w ∨ w1 = decDrop w k) := by
+  unfold dropDecision at hd
+  repeat' split at hd
+  all_goals cases hd
+  all_goals first | exact ⟨fun _ => rfl, .inl rfl⟩ | exact ⟨fun h => Bool.noConfusion h, .inr rfl⟩
+
+/-- outcome of one call, without assumptions on the state: the world changes at most in the drop
+counter of `k` and the randomness position; the output is `OneToPeer` -/
+theorem handleDataMsg_ok (w : World) (k j : Nat) (s : Trxd.TxMsg) (m : Trxd.RxMsg) (w' : World)
+    (ds : List Dgram) (h : handleDataMsg w k j s m = .ok (w', ds)) :
+    ∃ self src, w.trxs[k]? = some self ∧ w.trxs[j]? = some src ∧ OneToPeer self ds ∧
+      (w' = w ∨ w' = decDrop w k ∨ DrawOnly w w') := by
+  rw [handleDataMsg_eq] at h
+  split at h
+  · rename_i self src hk hj
+    refine ⟨self, src, hk, hj, ?_⟩
+    split at h
+    · cases h
+    · rename_i nope w1 hd
+      obtain ⟨hw0, hw1⟩ := dropDecision_ok _ _ _ _ _ _ hd
+      split at h
+      · split at h
+        · rename_i ds' hs
+          injection h with h; injection h with h1 h2
+          subst h1; subst h2
+          refine ⟨suppressOut_shape _ _ _ hs, ?_⟩
+          rcases hw1 with h | h
+          · exact .inl h
+          · exact .inr (.inl h)
+        · cases h
+      · rename_i hnope
+        have hn : w1 = w := hw0 (by simpa using hnope)
+        subst hn
+        obtain ⟨cm, _, hdo, _⟩ := passOn_ok _ _ _ _ _ _ _ h
+        exact ⟨passOn_shape _ _ _ _ _ _ _ h, .inr (.inr hdo)⟩
+  · cases h
+
+/-! ### what a forwarding step leaves alone -/
+
+/-- same transceivers up to the drop counters, same seed -/
+def Static (w0 w : World) : Prop :=
+  w.seed = w0.seed ∧ w.trxs.length = w0.trxs.length ∧
+  ∀ (i : Nat) (t : Trx), w0.trxs[i]? = some t → ∃ d, w.trxs[i]? = some { t with dropAmount := d }
+
+theorem Static.refl (w : World) : Static w w :=
+  ⟨rfl, rfl, fun _ t h => ⟨t.dropAmount, h⟩⟩
+
+theorem Static.trans {a b c : World} (h1 : Static a b) (h2 : Static b c) : Static a c := by
+  refine ⟨h2.1.trans h1.1, h2.2.1.trans h1.2.1, fun i t h => ?_⟩
+  obtain ⟨d, hd⟩ := h1.2.2 i t h
+  obtain ⟨d', hd'⟩ := h2.2.2 i _ hd
+  exact ⟨d', hd'⟩
+
+theorem Static.of_drawOnly {a b : World} (h : DrawOnly a b) : Static a b := by
+  obtain ⟨n, rfl⟩ := h
+  exact ⟨rfl, rfl, fun _ t h => ⟨t.dropAmount, h⟩⟩
+
+theorem decDrop_getElem? (w : World) (k i : Nat) :
+    (decDrop w k).trxs[i]? =
+      if k = i then (w.trxs[i]?).map (fun t => { t with dropAmount := t.dropAmount - 1 })
+      else w.trxs[i]? := setTrx_getElem? w k _ i
+
+theorem Static.decDrop (w : World) (k : Nat) : Static w (decDrop w k) := by
+  refine ⟨rfl, setTrx_length _ _ _, fun i t h => ?_⟩
+  rw [decDrop_getElem?]
+  split
+  · exact ⟨t.dropAmount - 1, by rw [h]; rfl⟩
+  · exact ⟨t.dropAmount, h⟩
+
+theorem Static.none {w0 w : World} (h : Static w0 w) (i : Nat) (hn : w0.trxs[i]? = none) :
+    w.trxs[i]? = none := by
+  rw [List.getElem?_eq_none_iff] at hn ⊢
+  have := h.2.1; omega
+
+theorem Static.poweredOn {w0 w : World} (h : Static w0 w) (k : Nat) :
+    Spec.poweredOn w k = Spec.poweredOn w0 k := by
+  unfold Spec.poweredOn
+  cases h0 : w0.trxs[k]? with
+  | none => rw [h.none k h0]
+  | some t => obtain ⟨d, hd⟩ := h.2.2 k t h0; rw [hd]
+
+theorem Static.rxFreqAt {w0 w : World} (h : Static w0 w) (k fn : Nat) :
+    Spec.rxFreqAt w k fn = Spec.rxFreqAt w0 k fn := by
+  unfold Spec.rxFreqAt
+  cases h0 : w0.trxs[k]? with
+  | none => rw [h.none k h0]
+  | some t => obtain ⟨d, hd⟩ := h.2.2 k t h0; rw [hd]; rfl
+
+theorem Static.txFreqAt {w0 w : World} (h : Static w0 w) (k fn : Nat) :
+    Spec.txFreqAt w k fn = Spec.txFreqAt w0 k fn := by
+  unfold Spec.txFreqAt
+  cases h0 : w0.trxs[k]? with
+  | none => rw [h.none k h0]
+  | some t => obtain ⟨d, hd⟩ := h.2.2 k t h0; rw [hd]; rfl
+
+theorem Static.isRecipient {w0 w : World} (h : Static w0 w) (j fn k : Nat) :
+    Spec.isRecipient w j fn k = Spec.isRecipient w0 j fn k := by
+  unfold Spec.isRecipient
+  rw [h.poweredOn, h.rxFreqAt, h.txFreqAt]
+
+theorem Static.freqOk {w0 w : World} (h : Static w0 w) (fn : Nat) (hok : Spec.FreqOk w0 fn) :
+    Spec.FreqOk w fn := by
+  intro k hk
+  rw [h.rxFreqAt, h.txFreqAt]
+  exact hok k (by have := h.2.1; omega)
+
+theorem handleDataMsg_static (w : World) (k j : Nat) (s : Trxd.TxMsg) (m : Trxd.RxMsg) (w' : World)
+    (ds : List Dgram) (h : handleDataMsg w k j s m = .ok (w', ds)) : Static w w' := by
+  obtain ⟨_, _, _, _, _, h | h | h⟩ := handleDataMsg_ok _ _ _ _ _ _ _ h
+  · rw [h]; exact Static.refl _
+  · rw [h]; exact Static.decDrop _ _
+  · exact Static.of_drawOnly h
+
+/-- a call for `k` does not touch any other transceiver -/
+theorem handleDataMsg_others (w : World) (k j : Nat) (s : Trxd.TxMsg) (m : Trxd.RxMsg) (w' : World)
+    (ds : List Dgram) (h : handleDataMsg w k j s m = .ok (w', ds)) (i : Nat) (hi : i ≠ k) :
+    w'.trxs[i]? = w.trxs[i]? := by
+  obtain ⟨_, _, _, _, _, h | h | h⟩ := handleDataMsg_ok _ _ _ _ _ _ _ h
+  · rw [h]
+  · rw [h, decDrop_getElem?, if_neg (fun e => hi e.symm)]
+  · rw [h.trxs]
+
+/-! ### `forwardMsg` as a fold of `handleDataMsg` -/
+
+/-- hand the burst to the transceivers `ks`, one after the other (world threaded, outputs
+concatenated): per transceiver `rx_msg.trans(ver = trx.data_if._hdr_ver)`, then `handle_data_msg` -/
+def handleSeq (j : Nat) (msg : Trxd.TxMsg) : World → List Nat → Except Exc (World × List Dgram)
+  | w, [] => .ok (w, [])
+  | w, k :: ks =>
+    match w.trxs[k]? with
+    | none => .error .indexError
+    | some trx =>
+      match msg.trans (some trx.hdrVer) with
+      | .error e => .error (ofTrxdExc e)
+      | .ok rx =>
+        match handleDataMsg w k j msg rx with
+        | .error e => .error e
+        | .ok (w, ds) =>
+          match handleSeq j msg w ks with
+          | .error e => .error e
+          | .ok (w, ds') => .ok (w, ds ++ ds')
+
+theorem isRecipient_iff (w : World) (j fn k : Nat) (trx : Trx) (txf : Option Int)
+    (hk : w.trxs[k]? = some trx) (htx : Spec.txFreqAt w j fn = some txf) :
+    Spec.isRecipient w j fn k = true ↔
+      k ≠ j ∧ trx.running = true ∧ trx.getRxFreq fn = .ok txf := by
+  unfold Spec.isRecipient Spec.poweredOn Spec.rxFreqAt Trx.getRxFreq
+  rw [hk, htx]
+  cases hf : trx.hop.getRxFreq fn with
+  | error e => simp [hf]
+  | ok f => simp [hf, and_assoc]
+
+theorem go_eq (j fn : Nat) (txf : Option Int) (msg : Trxd.TxMsg) (ks : List Nat) :
+    ∀ (w : World) (acc : List Dgram), (∀ k ∈ ks, k < w.trxs.length) → Spec.FreqOk w fn →
+      Spec.txFreqAt w j fn = some txf →
+      forwardMsg.go j fn txf msg w acc ks =
+        match handleSeq j msg w (ks.filter (Spec.isRecipient w j fn)) with
+        | .error e => .error e
+        | .ok (w', ds) => .ok (w', acc ++ ds) := by
+  induction ks with
+  | nil => intro w acc _ _ _; simp [forwardMsg.go, handleSeq]
+  | cons k ks ih =>
+    intro w acc hlen hok htx
+    have hk : k < w.trxs.length := hlen k (List.mem_cons_self ..)
+    have hlen' : ∀ k ∈ ks, k < w.trxs.length := fun k' h => hlen k' (List.mem_cons_of_mem _ h)
+    obtain ⟨trx, htrx⟩ : ∃ trx, w.trxs[k]? = some trx := ⟨w.trxs[k], List.getElem?_eq_getElem hk⟩
+    have hrec := isRecipient_iff w j fn k trx txf htrx htx
+    obtain ⟨f, hf⟩ : ∃ f, trx.getRxFreq fn = .ok f := by
+      have := (hok k hk).1
+      unfold Spec.rxFreqAt at this
+      rw [htrx] at this
+      unfold Trx.getRxFreq
+      cases h : trx.hop.getRxFreq fn with
+      | ok f => exact ⟨f, rfl⟩
+      | error e => simp [h] at this
+    unfold forwardMsg.go
+    by_cases hsel : Spec.isRecipient w j fn k = true
+    · obtain ⟨h1, h2, h3⟩ := hrec.1 hsel
+      rw [hf] at h3; injection h3 with h3; subst h3
+      simp only [h1, if_false, htrx, h2, not_true, hf, ne_eq, List.filter_cons, hsel, if_true, handleSeq]
+      cases msg.trans (some trx.hdrVer) with
+      | error e => rfl
+      | ok rx =>
+        dsimp only
+        cases hh : handleDataMsg w k j msg rx with
+        | error e => rfl
+        | ok p =>
+          obtain ⟨w', ds⟩ := p
+          have hst := handleDataMsg_static _ _ _ _ _ _ _ hh
+          dsimp only
+          rw [ih w' (acc ++ ds) (fun k' h => by rw [hst.2.1]; exact hlen' k' h) (hst.freqOk fn hok)
+            (by rw [hst.txFreqAt]; exact htx)]
+          have : Spec.isRecipient w' j fn = Spec.isRecipient w j fn := funext (hst.isRecipient j fn)
+          rw [this]
+          cases handleSeq j msg w' (List.filter (Spec.isRecipient w j fn) ks) with
+          | error e => rfl
+          | ok p => simp only [List.append_assoc]
+    · have hsel' : Spec.isRecipient w j fn k = false := by simpa using hsel
+      simp only [List.filter_cons, hsel', Bool.false_eq_true, if_false]
+      rw [← ih w acc hlen' hok htx]
+      by_cases h1 : k = j
+      · simp only [h1, if_true]
+      · simp only [h1, if_false, htrx]
+        by_cases h2 : trx.running = true
+        · simp only [h2, not_true, if_false, hf]
+          have h3 : f ≠ txf := fun e => hsel (hrec.2 ⟨h1, h2, by rw [hf, e]⟩)
+          simp only [ne_eq, h3, not_false_eq_true, if_true]
+        · have h2' : trx.running = false := by simpa using h2
+          simp only [h2', Bool.false_eq_true, not_false_eq_true, if_true]
+
+/-- what the forwarder hands on: the sender's message, without burst bits when the sender is muted -/
+def fwdInput (src : Trx) (msg : Trxd.TxMsg) : Trxd.TxMsg :=
+  if src.rfMuted then { msg with burst := none } else msg
+
+/-- `forwardMsg` is `handleDataMsg` for exactly the transceivers of `Spec.recipients`, in list
+order, with the world threaded through the calls -/
+theorem forwardMsg_eq (w : World) (j : Nat) (msg : Trxd.TxMsg) (src : Trx) (fnI : Int)
+    (hj : w.trxs[j]? = some src) (hfn : msg.fn = some fnI) (hok : Spec.FreqOk w fnI.toNat) :
+    forwardMsg w j msg = handleSeq j (fwdInput src msg) w (Spec.recipients w j fnI.toNat) := by
+  have hjl : j < w.trxs.length := by
+    rcases Nat.lt_or_ge j w.trxs.length with h | h
+    · exact h
+    · rw [List.getElem?_eq_none_iff.2 h] at hj; cases hj
+  obtain ⟨txf, htxf⟩ : ∃ f, src.getTxFreq fnI.toNat = .ok f := by
+    have := (hok j hjl).2
+    unfold Spec.txFreqAt at this
+    rw [hj] at this
+    unfold Trx.getTxFreq
+    cases h : src.hop.getTxFreq fnI.toNat with
+    | ok f => exact ⟨f, rfl⟩
+    | error e => simp [h] at this
+  have htx : Spec.txFreqAt w j fnI.toNat = some txf := by
+    unfold Spec.txFreqAt
+    rw [hj]
+    unfold Trx.getTxFreq at htxf
+    cases h : src.hop.getTxFreq fnI.toNat with
+    | ok f => rw [h] at htxf; injection htxf with e; simp [h, e]
+    | error e => rw [h] at htxf; cases htxf
+  obtain ⟨ver, fn', tn, pwr, burst⟩ := msg
+  dsimp only at hfn
+  subst hfn
+  unfold forwardMsg
+  simp only [hj, htxf]
+  rw [go_eq j fnI.toNat txf _ _ w [] (fun k hk => List.mem_range.1 hk) hok htx]
+  unfold Spec.recipients fwdInput
+  generalize handleSeq j _ w _ = r
+  cases r with
+  | error e => rfl
+  | ok p => simp only [List.nil_append]
+
 end OsmoVerif.World
